@@ -271,6 +271,11 @@ func (w *Workspace) UpdateFile(path, content string) {
 		adopted = true
 	}
 
+	// Readers hold the tree they got from GetResolved without the lock (and an update
+	// may come from a goroutine other than the one that serves requests): the tree
+	// is never changed in place, an update works on a copy.
+	w.resolved = cloneResolved(w.resolved)
+
 	oldIndex := w.index.FileIndex(path)
 	oldIncludes := []string(nil)
 	if oldIndex != nil {
@@ -370,6 +375,19 @@ func (w *Workspace) buildIndexFromResolvedLocked() {
 		w.index.SetFileIndex(path, BuildFileIndexFromJournal(path, journal))
 		w.updateIncludeEdgesLocked(path, nil, w.index.FileIndex(path).Includes)
 	}
+}
+
+func cloneResolved(r *include.ResolvedJournal) *include.ResolvedJournal {
+	if r == nil {
+		return nil
+	}
+	c := *r
+	c.Files = make(map[string]*ast.Journal, len(r.Files))
+	for k, v := range r.Files {
+		c.Files[k] = v
+	}
+	c.FileOrder = append([]string(nil), r.FileOrder...)
+	return &c
 }
 
 func (w *Workspace) updateResolvedLocked(path string, journal *ast.Journal) {
